@@ -14,7 +14,7 @@ HERE = os.path.dirname(os.path.abspath(__file__))
 FIX_COMMITS = [
     "b5ac1f3", "1edb1d6", "0e297eb", "e993b9c", "2be54ad", "7377f47", "ca6c519", "fab3d50", "1810991", "3594a47", "81ad9a8", "d90c18a",
     "f793bf7", "e68f70f", "3631110", "b149875", "f116732", "f37d660", "23b89ea", "4d080bb", "a4b0e12", "d07d7fe", "023fcbc", "820320c", "6d79759", "3968975", "9fae46d",
-    "8b6a8ad", "29b2657", "d769bd9", "5fcea1c", "5672db4", "08006c4", "42dfe43", "d659d40",
+    "8b6a8ad", "29b2657", "d769bd9", "5fcea1c", "5672db4", "08006c4", "42dfe43", "d659d40", "6f57a8f",
 ]
 
 HOOKS = {
